@@ -63,6 +63,7 @@ structure ClassInfo where
   hashable : Bool            -- `cls.__hash__ is not None`
   fields : List FieldInfo
   hashGenerated : Bool := true   -- `cls.__hash__` is the method `dataclass` generated (not a hand-written one)
+  refs : List Nat := []          -- class indices of the entity classes its fields are typed with
 deriving Repr, Inhabited
 
 /-- a module found by walking the package -/
